@@ -417,6 +417,15 @@ func tryReplay(p *Prog, o *Obligation, rf *ReplayFile, repo string) {
 		return
 	}
 	fn := e.fn
+	if len(e.replayInputs) != len(fn.Params) {
+		rf.Note = "no direct replay: obligation is not about one execution of the function body (refinement or lemma)"
+		return
+	}
+	defer func() {
+		if r := recover(); r != nil {
+			rf.Note = fmt.Sprintf("replay generator failed: %v", r)
+		}
+	}()
 	g := &goBuilder{model: o.Res.Model, pkg: fn.Pkg.Pkg, objs: map[string]string{}, p: p}
 	var args []string
 	for _, n := range e.replayInputs {
